@@ -87,6 +87,9 @@ type Stream struct {
 	callback          *StreamCallbacks
 	callbackInProcess uint32
 	asyncGoroutineWg  sync.WaitGroup
+	// cbStartLock orders "start a callback goroutine" (asyncGoroutineWg.Add on the event loop) against "close the stream"
+	// (state -> closed, then asyncGoroutineWg.Wait): an Add racing with a Wait that is about to return is a WaitGroup misuse
+	cbStartLock sync.Mutex
 	// when callback.OnData inner call stream.Close set this field
 	// after OnData return check state and call stream.Close again
 	callbackCloseState uint32
@@ -298,7 +301,10 @@ func (s *Stream) close() error {
 	}
 
 	vpo(vpStreamCloseLoaded, s, int64(oldState))
-	if atomic.CompareAndSwapUint32(&s.state, oldState, uint32(streamClosed)) {
+	s.cbStartLock.Lock()
+	swapped := atomic.CompareAndSwapUint32(&s.state, oldState, uint32(streamClosed))
+	s.cbStartLock.Unlock()
+	if swapped {
 		vpo(vpStreamCloseCASed, s, int64(oldState))
 		if s.getCallbacks() != nil {
 			// an OnData that started just before this close may be blocked in a read waiting for bytes that a closed
@@ -429,8 +435,19 @@ func (s *Stream) fillDataToReadBuffer(buf bufferSliceWrapper) error {
 	if callback != nil {
 		vpo(vpFillBeforeCbCAS, s, 0)
 		// callback OnData maybe block, make sure OnData called once and chan recvNotifyCh be notified
-		if atomic.CompareAndSwapUint32(&s.callbackInProcess, 0, 1) {
+		// no new callback goroutine once the stream is closed: close() is (or will be) waiting on asyncGoroutineWg
+		s.cbStartLock.Lock()
+		closed := s.getStreamState() == uint32(streamClosed)
+		start := !closed && atomic.CompareAndSwapUint32(&s.callbackInProcess, 0, 1)
+		if start {
 			s.asyncGoroutineWg.Add(1)
+		}
+		s.cbStartLock.Unlock()
+		if closed {
+			s.pendingData.clear()
+			return nil
+		}
+		if start {
 			gopool.Go(func() {
 				for {
 					s.pendingData.moveTo(s.recvBuf)
